@@ -257,7 +257,7 @@ func (e *Engine) globalsReached(fn *ssa.Function) map[*ssa.Global]bool {
 				}
 			}
 			for _, ls := range c.Loops {
-				for _, cl := range ls.Invariants {
+				for _, cl := range append(append([]*Clause{}, ls.Invariants...), ls.Steps...) {
 					if tp != nil {
 						visit(tp.SSA.Func(cl.Ghost))
 					}
